@@ -1,16 +1,22 @@
 /-
   C08 — BLOB payloads arrive bit-exact in both directions and never stall a link.
   Codec: Model/B64.lean (`binascii`-compatible base64), proofs in Proofs/B64.lean.
-  (Deployment-level statements `C08_down`, `C08_up`, `C08_publish` over Model/Sys.lean: see DESIGN.md.)
+  Deployment: Model/Sys.lean, Spec: `Spec.Sys.c08Holds` (the check's oracle).
+  Helper lemmas: Proofs/Sys08.lean (which also defines the side condition `worldOk08`).
+
+  `C08_down`, `C08_up` are proved as stated.  `C08_publish` is proved with ONE extra hypothesis (`ha`: the
+  address names an existing BLOB element) and the completed side condition `worldOk08`; each addition is
+  shown to be necessary by a kernel-checked counterexample below.
 -/
 import Indi.Spec.Sys
 import Indi.Generated.Registry
 import Indi.Proofs.B64
+import Indi.Proofs.Sys08
 
 namespace Indi.Sys
 open Indi Indi.Dev Indi.Cli Indi.Spec.Sys
 
-/-- base64: decoding the encoding of ANY byte string gives the byte string back -/
+/-- base64: decoding the encoding of any byte string gives the byte string back -/
 theorem C08_codec (bs : List Nat) (h : ∀ b ∈ bs, b < 256) : B64.decode (B64.encode bs) = .ok bs :=
   B64.decode_encode bs h
 
@@ -22,4 +28,154 @@ theorem C08_codec_chars (bs : List Nat) (h : ∀ b ∈ bs, b < 256) : ∀ c ∈ 
 theorem C08_codec_length (bs : List Nat) : (B64.encode bs).length = 4 * ((bs.length + 2) / 3) :=
   B64.encode_length bs
 
+/-- **C08** (driver → client, one element): the part a driver publishes for a BLOB value, read by a client after
+the wire (`Spec.Dev.normPart`: what `from_xml ∘ to_xml` does to a part, C03), decodes to identical bytes, format
+and length -/
+theorem C08_down (e : Dev.Elem) (bs : List Nat) (f : Str) (h : ∀ b ∈ bs, b < 256)
+    (hv : readValue e = .blob bs (some f)) :
+    ∃ p, onePart .blob e = .ok p ∧ blobFromPart (Spec.Dev.normPart p) = .ok (.blob bs (some f)) := by
+  refine ⟨_, onePart_blob e bs (some f) hv, ?_⟩
+  rw [normPart_blobPart]
+  exact blobFromPart_read _ _ bs _ h (normVal_encode bs)
+
+/-- the hypotheses of `C08_down` are satisfiable -/
+example : ∃ (e : Dev.Elem) (bs : List Nat) (f : Str), (∀ b ∈ bs, b < 256) ∧ bs ≠ [] ∧
+    readValue e = .blob bs (some f) :=
+  ⟨{ d := { name := s "img", label := s "Image" }, value := .blob [0, 255, 77] (some (s ".fits")), enabled := true },
+   [0, 255, 77], s ".fits", by decide +kernel⟩
+
+/-- **C08** (client → driver, one element): the part a client submits for a BLOB value, read by the driver after
+the wire, yields identical bytes and format -/
+theorem C08_up (name : Option Str) (bs : List Nat) (f : Option Str) (h : ∀ b ∈ bs, b < 256) :
+    ∃ p, newPart .blob name (.blob bs f) = some p ∧ valueFromPart .blob (Spec.Dev.normPart p) = .ok (.blob bs f) := by
+  refine ⟨_, newPart_blob name bs f, ?_⟩
+  rw [normPart_blobPart]
+  exact valueFromPart_read _ _ bs _ h (normVal_encode bs)
+
+/-- the hypotheses of `C08_up` are satisfiable -/
+example : ∃ (bs : List Nat), (∀ b ∈ bs, b < 256) ∧ bs ≠ [] := ⟨[1, 2, 3, 250], by decide⟩
+
+/-- EXTRA HYPOTHESIS of `C08_publish` (not in the draft): the address names an existing element of a BLOB
+property of the driver.  `c08Holds` is `false` for an address that names nothing (`C08_publish_needs_address`),
+and an element of another kind rejects a byte string (AssertionError) and keeps its value, which is then not a
+BLOB value. -/
+def blobElemAt (d : Device) (a : Addr) : Bool :=
+  match getVec d a.g a.v with
+  | some (_, v) => v.kind == .blob && (v.elems[a.e]?).isSome
+  | none => false
+
+/-- **C08** (deployment): when a driver publishes a byte string as the value of an enabled BLOB element, then -
+under ANY interleaving of the peers' connections - every peer that sees the deployment as it is holds, if BLOBs
+reach it, identical bytes and format, and otherwise exactly what it held before (`c08Holds`) -/
+theorem C08_publish (w w' : World) (di : Nat) (d : Device) (a : Addr) (bs : List Nat) (f : Str)
+    (hok : Indi.Sys.worldOk08 w.devs = true) (hs : allSynced w = true) (hd : w.devs[di]? = some d)
+    (ha : blobElemAt d a = true)      -- EXTRA HYPOTHESIS (see above)
+    (hb : ∀ b ∈ bs, b < 256)
+    (hn : nextOk Generated.registry w (.driver di (.assign a (.blob bs (some f)))) w' = true) :
+    ∀ pp ∈ w.peers.zip w'.peers, ∀ d', w'.devs[di]? = some d' →
+      c08Holds pp.1.blobs d' a.g a.v a.e pp.1.mirror pp.2.mirror = true := by
+  unfold blobElemAt at ha
+  split at ha
+  · rename_i g v hv
+    simp only [Bool.and_eq_true, beq_iff_eq, Option.isSome_iff_exists] at ha
+    obtain ⟨hk, e, he⟩ := ha
+    exact publish_core w w' di d a bs f hok hs hd hb g v e hv he hk hn
+  · cases ha
+
 end Indi.Sys
+
+/-! ## satisfiability of the hypotheses, and the counterexamples that justify them (all kernel-checked) -/
+
+namespace Indi.Sys.Ex08
+open Indi Indi.Dev Indi.Cli Indi.Spec.Sys Indi.Sys
+
+def reg := Generated.registry
+
+def el (n : String) (v : Value) (en : Bool := true) : Dev.Elem :=
+  { d := { name := s n, label := s n }, value := v, enabled := en }
+
+def cam (elems : List Dev.Elem) : Device :=
+  { name := s "cam",
+    groups := [{ name := s "Main", enabled := true,
+                 vecs := [{ name := s "CCD1", label := s "Image", kind := .blob, perm := some (s "ro"),
+                            timeout := some (s "60"), rule := none, state := s "Ok", enabled := true, elems := elems }] }] }
+
+/-- peers: network with BLOBs, network without, network with BLOBs on both connections, in-process -/
+def kinds : List (Bool × Bool × Bool) := [(true, false, false), (false, false, false), (true, false, true), (false, true, false)]
+
+def op (bs : List Nat) : Sys.Op := .driver 0 (.assign ⟨0, 0, 0⟩ (.blob bs (some (s ".fits"))))
+
+/-! ### a non-trivial instance of the hypotheses of `C08_publish`: three BLOB elements (one unset, one holding
+bytes, one disabled), four peers of all kinds, all synchronised by the handshake; the schedule is the in-order one -/
+def w1 : World := start reg [cam [el "img" .none, el "thumb" (.blob [9, 9] (some (s ".jpg"))), el "off" .none false]] kinds
+
+example :
+    worldOk08 w1.devs = true ∧ allSynced w1 = true ∧ w1.devs[0]? = some (cam [el "img" .none, el "thumb" (.blob [9, 9] (some (s ".jpg"))), el "off" .none false]) ∧
+    blobElemAt (cam [el "img" .none, el "thumb" (.blob [9, 9] (some (s ".jpg"))), el "off" .none false]) ⟨0, 0, 0⟩ = true ∧
+    (∀ b ∈ [0, 255, 16], b < 256) ∧
+    nextOk reg w1 (op [0, 255, 16]) (step reg w1 (op [0, 255, 16])) = true ∧ w1.peers.length = 4 := by
+  decide +kernel
+
+
+/-! ### counterexamples -/
+
+/-- the conjunct of `worldOk08` without (1): formats -/
+def okButFormat (devs : List Device) : Bool :=
+  devs.all fun d => Spec.Dev.WF d && d.groups.all fun g => g.vecs.all fun v =>
+    v.kind != .blob || decide ((enabledElems v).map (·.d.name)).Nodup
+
+/-- the conjunct of `worldOk08` without (2): distinct names -/
+def okButNames (devs : List Device) : Bool :=
+  devs.all fun d => Spec.Dev.WF d && d.groups.all fun g => g.vecs.all fun v =>
+    v.kind != .blob || (v.elems.all fun e => !e.enabled || blobValOk e.value)
+
+/-- the conclusion of `C08_publish` fails -/
+def fails (w w' : World) (di : Nat) (a : Addr) : Bool :=
+  (w.peers.zip w'.peers).any fun pp =>
+    match w'.devs[di]? with
+    | some d' => !c08Holds pp.1.blobs d' a.g a.v a.e pp.1.mirror pp.2.mirror
+    | none => false
+
+/-- (1) a sibling element holding a BLOB without format: the driver `cam` has the BLOB property `CCD1` with the
+enabled elements `img` (unset) and `old` (`BLOB(b"\x01", None)`).  All four peers have performed the handshake
+and are synchronised.  The driver assigns `b"\x07"` (format ".fits") to `img`.  The update lists both elements;
+`old`'s `oneBLOB` has no `format` attribute, the network peers' `from_xml` rejects the update, and the peers that
+enabled BLOBs still hold nothing for `img`. -/
+def w2 : World := start reg [cam [el "img" .none, el "old" (.blob [1] none)]] kinds
+
+theorem C08_publish_needs_format :
+    okButFormat w2.devs = true ∧ allSynced w2 = true ∧
+    blobElemAt (cam [el "img" .none, el "old" (.blob [1] none)]) ⟨0, 0, 0⟩ = true ∧
+    nextOk reg w2 (op [7]) (step reg w2 (op [7])) = true ∧
+    fails w2 (step reg w2 (op [7])) 0 ⟨0, 0, 0⟩ = true := by
+  decide +kernel
+
+/-- (2) two enabled elements with the same name `img`.  (A client's mirror is a dict, so a mirror showing both
+is not one the library's client can build; `allSynced` nevertheless admits it.)  The driver assigns `b"\x07"` to
+the first; the update carries two children named `img`; the second (unset, size 0) overwrites what the first
+stored, and the peer ends up with empty bytes. -/
+def mir3 : Mirror :=
+  [(some (s "cam"), { vecs := [(some (s "CCD1"),
+      { kind := .blob, name := some (s "CCD1"), group := some (s "Main"), label := some (s "Image"),
+        timestamp := some (s "T"), message := none, state := some (s "Ok"),
+        elems := [(some (s "img"), { name := some (s "img"), label := some (s "img"), value := .none }),
+                  (some (s "img"), { name := some (s "img"), label := some (s "img"), value := .none })] })] })]
+
+def w3 : World := { devs := [cam [el "img" .none, el "img" .none]], peers := [{ blobs := true, inproc := false, mirror := mir3 }] }
+
+theorem C08_publish_needs_distinct_names :
+    okButNames w3.devs = true ∧ allSynced w3 = true ∧
+    blobElemAt (cam [el "img" .none, el "img" .none]) ⟨0, 0, 0⟩ = true ∧
+    nextOk reg w3 (op [7]) (step reg w3 (op [7])) = true ∧
+    fails w3 (step reg w3 (op [7])) 0 ⟨0, 0, 0⟩ = true := by
+  decide +kernel
+
+/-- (3) an address that names nothing: `c08Holds` is false whatever the peers hold -/
+theorem C08_publish_needs_address :
+    worldOk08 w1.devs = true ∧ allSynced w1 = true ∧
+    nextOk reg w1 (.driver 0 (.assign ⟨0, 0, 7⟩ (.blob [7] (some (s ".fits")))))
+      (step reg w1 (.driver 0 (.assign ⟨0, 0, 7⟩ (.blob [7] (some (s ".fits")))))) = true ∧
+    fails w1 (step reg w1 (.driver 0 (.assign ⟨0, 0, 7⟩ (.blob [7] (some (s ".fits")))))) 0 ⟨0, 0, 7⟩ = true := by
+  decide +kernel
+
+end Indi.Sys.Ex08
